@@ -180,6 +180,11 @@ impl GraphDatabaseService {
                     DbMessage::DataModelUpdate(value, reply) => {
                         match db.update_data_model(&value).await {
                             Ok(model) => {
+                                // the cached parsers were built with the previous model
+                                // (defaults, nullability, new fields)
+                                db.mutation_cache.clear();
+                                db.query_cache.clear();
+                                db.deletion_cache.clear();
                                 let _ = reply.send(Ok(model));
                             }
                             Err(err) => {
